@@ -374,7 +374,9 @@ def run(ctx: Context, rep) -> None:
     # rejection propagates out of the `with` block
     from sa.rules import shared as _sh18
     _sh18.check_exit_publishes(ctx, rep, "C18.publish")
-
+    # nothing read from the dataset's files / the environment is memoised
+    from sa.rules import shared as _shm
+    _shm.check_no_memo(ctx, rep, "C18.memo")
 
 def check_writer_state(ctx: Context, rep, rule: str) -> None:
     rep.rule(
